@@ -7,7 +7,7 @@
    mk_hunks a b ops n : the hunks of internal_diff's output (grouping = get_grouped_opcodes(n), incl. the
                  "-1,0" -> "-0,0" header work-around)
    apply t hs  : iter_patched_from_hunks(t, hs) forced with list(): inr text | inl (AConflict line_no)
-                 | inl AExhausted (next() on the exhausted original: RuntimeError in the real code) *)
+                 (PatchConflict: a mismatching line, or the original text ends before/inside a hunk) *)
 From Coq Require Import NArith Arith List Bool.
 From BV Require Import Lib.Bytes Model.Patch Theory.Patch Theory.PatchMore.
 Import ListNotations.
@@ -46,30 +46,22 @@ Theorem C39_mismatch_not_ok :
 Proof. exact mismatch_not_ok. Qed.
 Print Assumptions C39_mismatch_not_ok.
 
-(* the full claim "it is reported as a PatchConflict" is FALSE of the faithful model: the text may run out *)
-Theorem C39_mismatch_is_conflict_refuted :
-  exists a b ops n a2 g,
-    valid_opcodes a b ops = true /\ In g (group_opcodes n ops) /\
-    slice a2 (g_i1 g) (g_i2 g) <> slice a (g_i1 g) (g_i2 g) /\
-    apply a2 (mk_hunks a b ops n) = inl AExhausted.
-Proof. exact mismatch_is_conflict_refuted. Qed.
-Print Assumptions C39_mismatch_is_conflict_refuted.
-
-(* ... and holds under the executable guard "a2 is not shorter than a" (e.g. any in-place edit of lines) *)
-Theorem C39_mismatch_is_conflict_guarded :
+(* ... and is reported as a PatchConflict (a mismatching line, or the text ends before/inside a hunk) *)
+Theorem C39_mismatch_is_conflict :
   forall a b ops n a2 g,
     valid_opcodes a b ops = true -> In g (group_opcodes n ops) ->
     slice a2 (g_i1 g) (g_i2 g) <> slice a (g_i1 g) (g_i2 g) ->
-    length a <= length a2 ->
     exists k, apply a2 (mk_hunks a b ops n) = inl (AConflict k).
-Proof. exact mismatch_is_conflict_guarded. Qed.
-Print Assumptions C39_mismatch_is_conflict_guarded.
+Proof. exact mismatch_is_conflict. Qed.
+Print Assumptions C39_mismatch_is_conflict.
 
 Example C39_mismatch_nontrivial :
   In [Op TReplace 0 1 0 1] (group_opcodes 3 [Op TReplace 0 1 0 1]) /\
   slice [lb] 0 1 <> slice [la] 0 1 /\
-  apply [lb] (mk_hunks [la] [lb] [Op TReplace 0 1 0 1] 3) = inl (AConflict 1).
-Proof. split; [left; reflexivity|]. split; [discriminate|reflexivity]. Qed.
+  apply [lb] (mk_hunks [la] [lb] [Op TReplace 0 1 0 1] 3) = inl (AConflict 1) /\
+  apply [] (mk_hunks [la] [lb] [Op TReplace 0 1 0 1] 3) = inl (AConflict 1) /\
+  apply [la] (mk_hunks ex_a ex_b ex_ops 0) = inl (AConflict 2).
+Proof. split; [left; reflexivity|]. split; [discriminate|]. repeat split; reflexivity. Qed.
 
 (* ---- clause 3: the statistics are the changed line counts: (lines inserted, lines removed, number of hunks) *)
 Theorem C39_stats :
